@@ -25,9 +25,10 @@ Written from the DOCUMENTATION, not from the lexer:
 * whitespace class: the docs never define "whitespace" (they enumerate "spaces,
   tabs, newlines etc."); the model uses the Unicode White_Space characters for
   every rule -- what '-' removes on a side, and (minus line breaks) what may
-  fill the line before a tag for lstrip_blocks.  C12 generates only space/tab/
-  line breaks, where this coincides with the docs' "tabs and spaces"; C39 also
-  generates the other characters (reasoning in vt/checks/c39.py ASSUMPTIONS).
+  fill the line before a tag for lstrip_blocks.  For space/tab/line breaks this
+  coincides with the docs' "tabs and spaces"; C12 (rendered output) and C39
+  (tokens) both also generate the other characters through vt.gen.c39_ws
+  (reasoning in vt/checks/c39.py ASSUMPTIONS).
 
 A *skeleton* is a strictly alternating list
 
@@ -54,7 +55,8 @@ NL_RE = re.compile(r"\r\n|\r|\n")
 #: "whitespace" = the characters with the Unicode White_Space property (Unicode
 #: Character Database, PropList.txt) -- an engine-independent definition.  '-' is
 #: documented to remove "the whitespaces" before/after the tag without restriction.
-#: The C12 generators only ever emit space/tab/LF/CR/CRLF; C39 also emits the others.
+#: The c12_skel generators only ever emit space/tab/LF/CR/CRLF; vt.gen.c39_ws adds the others
+#: for both C12 and C39.
 WS = ("\t\n\x0b\x0c\r \x85\xa0\u1680" + "".join(chr(c) for c in range(0x2000, 0x200B))
       + "\u2028\u2029\u202f\u205f\u3000")
 #: line breaks of a template source: "\n", "\r\n", "\r" only (Lexer.tokeniter: "Only \n,
